@@ -631,12 +631,13 @@ class SimFS:
 
     # -- patching --------------------------------------------------------------------------------
     def __enter__(self):
+        self._prev = SimFS.current
         SimFS.current = self
         SimFS._install()
         return self
 
     def __exit__(self, *a):
-        SimFS.current = None
+        SimFS.current = getattr(self, "_prev", None)
         return False
 
     @classmethod
